@@ -509,3 +509,147 @@ package sqlx
 //@           gvcHasDep(deps[changes[loopi1].(*schema.DropTable).T.ForeignKeys[j].RefTable.Name], changes[loopi1].(*schema.DropTable).T.ForeignKeys[j].Table))
 //@   loop 4 invariant (forall k int :: 0 <= k && k < loopk ==> gvcModEdge(deps, changes[loopi1].(*schema.ModifyTable).T, changes[loopi1].(*schema.ModifyTable).Changes[k]))
 //@   loop 4 invariant (forall k int :: 0 <= k && k < loopk ==> gvcModDropEdge(deps, changes, changes[loopi1].(*schema.ModifyTable).Changes[k]))
+
+// ---------------------------------------------------------------------------------------
+// C02: the change-kind bit-set of a foreign key is exact
+
+//@ extern func (dd DiffDriver) ReferenceChanged(from, to schema.ReferenceOption) (r bool)
+//@   pure
+//@ extern func (dd DiffDriver) ForeignKeyAttrChanged(from, to []schema.Attr) (r bool)
+//@   pure
+
+//@ spec func gvcNamesDiffer(a, b []*schema.Column, n int) bool {
+//@ spec 	return (exists i int :: 0 <= i && i < n && a[i].Name != b[i].Name)
+//@ spec }
+
+//@ func (d *Diff) fkChange(from, to *schema.ForeignKey) (r schema.ChangeKind)
+//@   requires d != nil && from != nil && to != nil && from.RefTable != nil && to.RefTable != nil && d.DiffDriver != nil
+//@   requires (forall i int :: 0 <= i && i < len(from.Columns) ==> from.Columns[i] != nil)
+//@   requires (forall i int :: 0 <= i && i < len(to.Columns) ==> to.Columns[i] != nil)
+//@   requires (forall i int :: 0 <= i && i < len(from.RefColumns) ==> from.RefColumns[i] != nil)
+//@   requires (forall i int :: 0 <= i && i < len(to.RefColumns) ==> to.RefColumns[i] != nil)
+//@   modifies nothing
+//@   ensures ref-table-bit-iff-referenced-table-differs: (r&schema.ChangeRefTable != 0) == (from.RefTable.Name != to.RefTable.Name)
+//@   ensures ref-column-bit-iff-referenced-columns-differ: (r&schema.ChangeRefColumn != 0) == (from.RefTable.Name != to.RefTable.Name ||
+//@           len(from.RefColumns) != len(to.RefColumns) || gvcNamesDiffer(from.RefColumns, to.RefColumns, len(from.RefColumns)))
+//@   ensures column-bit-iff-columns-differ: (r&schema.ChangeColumn != 0) == (len(from.Columns) != len(to.Columns) ||
+//@           gvcNamesDiffer(from.Columns, to.Columns, len(from.Columns)))
+//@   ensures update-action-bit-iff-driver-says-so: (r&schema.ChangeUpdateAction != 0) == d.DiffDriver.ReferenceChanged(from.OnUpdate, to.OnUpdate)
+//@   ensures delete-action-bit-iff-driver-says-so: (r&schema.ChangeDeleteAction != 0) == d.DiffDriver.ReferenceChanged(from.OnDelete, to.OnDelete)
+//@   ensures attr-bit-iff-driver-says-so: (r&schema.ChangeAttr != 0) == d.DiffDriver.ForeignKeyAttrChanged(from.Attrs, to.Attrs)
+//@   ensures no-other-bit: r&^(schema.ChangeRefTable|schema.ChangeRefColumn|schema.ChangeColumn|schema.ChangeUpdateAction|schema.ChangeDeleteAction|schema.ChangeAttr) == 0
+//@   loop 1 invariant 0 <= loopk && loopk <= len(from.RefColumns)
+//@   loop 1 invariant (change&schema.ChangeRefColumn != 0) == gvcNamesDiffer(from.RefColumns, to.RefColumns, loopk)
+//@   loop 1 invariant change&^schema.ChangeRefColumn == 0
+//@   loop 2 invariant 0 <= loopk && loopk <= len(from.Columns)
+//@   loop 2 invariant (change&schema.ChangeColumn != 0) == gvcNamesDiffer(from.Columns, to.Columns, loopk)
+//@   loop 2 invariant change&^(schema.ChangeRefTable|schema.ChangeRefColumn|schema.ChangeColumn) == 0
+//@   loop 2 invariant (change&schema.ChangeRefTable != 0) == (from.RefTable.Name != to.RefTable.Name)
+//@   loop 2 invariant (change&schema.ChangeRefColumn != 0) == (from.RefTable.Name != to.RefTable.Name ||
+//@           len(from.RefColumns) != len(to.RefColumns) || gvcNamesDiffer(from.RefColumns, to.RefColumns, len(from.RefColumns)))
+
+// ---------------------------------------------------------------------------------------
+// C02: columnDiff - one DropColumn per column that disappears, one AddColumn per new column, nothing else unjustified
+
+//@ extern func (dd DiffDriver) ColumnChange(fromT *schema.Table, from, to *schema.Column, o *schema.DiffOptions) (r schema.Change, err error)
+//@   modifies nothing
+//@   ensures err == nil && r != nil ==> GvcIs[*schema.ModifyColumn](r) && r.(*schema.ModifyColumn) != nil && r.(*schema.ModifyColumn).From == from && r.(*schema.ModifyColumn).To == to
+
+//@ spec func gvcHasCol(t *schema.Table, name string) bool { _, ok := t.Column(name); return ok }
+//@ spec func gvcDropOf(c schema.Change, col *schema.Column) bool {
+//@ spec 	d, ok := c.(*schema.DropColumn)
+//@ spec 	return ok && d != nil && d.C == col
+//@ spec }
+//@ spec func gvcAddOf(c schema.Change, col *schema.Column) bool {
+//@ spec 	a, ok := c.(*schema.AddColumn)
+//@ spec 	return ok && a != nil && a.C == col
+//@ spec }
+//@ spec func gvcListsDrop(l []schema.Change, n int, col *schema.Column) bool { return (some k int :: 0 <= k && k < n && gvcDropOf(l[k], col)) }
+//@ spec func gvcListsAdd(l []schema.Change, n int, col *schema.Column) bool { return (some k int :: 0 <= k && k < n && gvcAddOf(l[k], col)) }
+// a change in the list is justified by the two tables
+//@ spec func gvcColJustified(c schema.Change, from, to *schema.Table) bool {
+//@ spec 	if d, ok := c.(*schema.DropColumn); ok {
+//@ spec 		return d != nil && (some i int :: 0 <= i && i < len(from.Columns) && from.Columns[i] == d.C) && !gvcHasCol(to, d.C.Name)
+//@ spec 	}
+//@ spec 	if a, ok := c.(*schema.AddColumn); ok {
+//@ spec 		return a != nil && (some j int :: 0 <= j && j < len(to.Columns) && to.Columns[j] == a.C) && !gvcHasCol(from, a.C.Name)
+//@ spec 	}
+//@ spec 	if m, ok := c.(*schema.ModifyColumn); ok {
+//@ spec 		return m != nil && (some i int :: 0 <= i && i < len(from.Columns) && from.Columns[i] == m.From) &&
+//@ spec 			(some j int :: 0 <= j && j < len(to.Columns) && to.Columns[j] == m.To) && m.From.Name == m.To.Name
+//@ spec 	}
+//@ spec 	return false
+//@ spec }
+
+//@ func (d *Diff) askForColumns(t *schema.Table, changes []schema.Change, o *schema.DiffOptions) (r []schema.Change, err error)
+//@   modifies nothing
+//@   ensures err == nil && GvcEq(r, changes)
+
+//@ spec func gvcColOf(t *schema.Table, name string) *schema.Column { c, _ := t.Column(name); return c }
+//@ spec func gvcInCols(t *schema.Table, c *schema.Column) bool { return (some i int :: 0 <= i && i < len(t.Columns) && t.Columns[i] == c) }
+// what a reported change must be backed by
+//@ spec func gvcDropBacked(c schema.Change, from, to *schema.Table) bool {
+//@ spec 	d, ok := c.(*schema.DropColumn)
+//@ spec 	return !ok || (d != nil && d.C != nil && gvcInCols(from, d.C) && !gvcHasCol(to, d.C.Name))
+//@ spec }
+//@ spec func gvcAddBacked(c schema.Change, from, to *schema.Table) bool {
+//@ spec 	a, ok := c.(*schema.AddColumn)
+//@ spec 	return !ok || (a != nil && a.C != nil && gvcInCols(to, a.C) && !gvcHasCol(from, a.C.Name))
+//@ spec }
+//@ spec func gvcModBacked(c schema.Change, from, to *schema.Table) bool {
+//@ spec 	m, ok := c.(*schema.ModifyColumn)
+//@ spec 	return !ok || (m != nil && m.From != nil && m.To != nil && m.To.Name == m.From.Name && gvcInCols(from, m.From))
+//@ spec }
+//@ spec func gvcModToBacked(c schema.Change, to *schema.Table) bool {
+//@ spec 	m, ok := c.(*schema.ModifyColumn)
+//@ spec 	return !ok || (m != nil && gvcInCols(to, m.To))
+//@ spec }
+//@ spec func gvcColKind(c schema.Change) bool {
+//@ spec 	return GvcIs[*schema.DropColumn](c) || GvcIs[*schema.AddColumn](c) || GvcIs[*schema.ModifyColumn](c)
+//@ spec }
+
+//@ func (d *Diff) columnDiff(from, to *schema.Table, opts *schema.DiffOptions) (r []schema.Change, err error)
+//@   requires d != nil && d.DiffDriver != nil && from != nil && to != nil && opts != nil && NoChange == nil
+//@   requires (forall i int :: 0 <= i && i < len(from.Columns) ==> from.Columns[i] != nil)
+//@   requires (forall i int :: 0 <= i && i < len(to.Columns) ==> to.Columns[i] != nil)
+//@   requires no-change-kind-is-skipped: len(opts.SkipChanges) == 0
+//@   modifies everything
+//@   ensures every-vanished-column-is-dropped: err == nil ==> (forall i int :: 0 <= i && i < len(from.Columns) && !gvcHasCol(to, from.Columns[i].Name) ==> gvcListsDrop(r, len(r), from.Columns[i]))
+//@   ensures every-new-column-is-added: err == nil ==> (forall j int :: 0 <= j && j < len(to.Columns) && !gvcHasCol(from, to.Columns[j].Name) ==> gvcListsAdd(r, len(r), to.Columns[j]))
+//@   ensures only-vanished-columns-are-dropped: err == nil ==> (forall k int :: 0 <= k && k < len(r) ==> gvcDropBacked(r[k], from, to))
+//@   ensures only-new-columns-are-added: err == nil ==> (forall k int :: 0 <= k && k < len(r) ==> gvcAddBacked(r[k], from, to))
+//@   ensures modifications-pair-the-columns-of-one-name: err == nil ==> (forall k int :: 0 <= k && k < len(r) ==> gvcModBacked(r[k], from, to))
+//@   ensures modifications-lead-to-a-column-of-the-new-table: err == nil ==> (forall k int :: 0 <= k && k < len(r) ==> gvcModToBacked(r[k], to))
+//@   ensures at-most-one-change-per-column: err == nil ==> len(r) <= len(from.Columns)+len(to.Columns)
+//@   ensures nothing-but-column-changes: err == nil ==> (forall k int :: 0 <= k && k < len(r) ==> gvcColKind(r[k]))
+//@   loop 1 localwrites
+//@   loop 2 localwrites
+//@   loop 3 localwrites
+//@   loop 1 invariant 0 <= loopk && loopk <= len(from.Columns) && (all == nil || GvcFresh(all))
+//@   loop 1 invariant (forall i int :: 0 <= i && i < loopk && !gvcHasCol(to, from.Columns[i].Name) ==> gvcListsDrop(all, len(all), from.Columns[i]))
+//@   loop 2 invariant 0 <= loopk && loopk <= len(to.Columns) && (all == nil || GvcFresh(all))
+//@   loop 2 invariant (forall i int :: 0 <= i && i < len(from.Columns) && !gvcHasCol(to, from.Columns[i].Name) ==> gvcListsDrop(all, len(all), from.Columns[i]))
+//@   loop 2 invariant (forall j int :: 0 <= j && j < loopk && !gvcHasCol(from, to.Columns[j].Name) ==> gvcListsAdd(all, len(all), to.Columns[j]))
+//@   loop 3 invariant (forall j int :: 0 <= j && j < len(to.Columns) && !gvcHasCol(from, to.Columns[j].Name) ==> gvcListsAdd(all, len(all), to.Columns[j]))
+//@   loop 3 invariant 0 <= loopk && loopk <= len(all) && GvcFresh(changes) && (all == nil || (GvcFresh(all) && GvcBase(all) != GvcBase(changes)))
+//@   loop 3 invariant len(opts.SkipChanges) == 0
+//@   loop 3 invariant (forall i int :: 0 <= i && i < len(from.Columns) && !gvcHasCol(to, from.Columns[i].Name) ==> gvcListsDrop(all, len(all), from.Columns[i]))
+//@   loop 1 invariant (forall k int :: 0 <= k && k < len(all) ==> gvcDropBacked(all[k], from, to))
+//@   loop 1 invariant (forall k int :: 0 <= k && k < len(all) ==> gvcAddBacked(all[k], from, to))
+//@   loop 1 invariant (forall k int :: 0 <= k && k < len(all) ==> gvcModBacked(all[k], from, to))
+//@   loop 1 invariant (forall k int :: 0 <= k && k < len(all) ==> gvcModToBacked(all[k], to))
+//@   loop 1 invariant (forall k int :: 0 <= k && k < len(all) ==> gvcColKind(all[k]))
+//@   loop 2 invariant (forall k int :: 0 <= k && k < len(all) ==> gvcDropBacked(all[k], from, to))
+//@   loop 2 invariant (forall k int :: 0 <= k && k < len(all) ==> gvcAddBacked(all[k], from, to))
+//@   loop 2 invariant (forall k int :: 0 <= k && k < len(all) ==> gvcModBacked(all[k], from, to))
+//@   loop 2 invariant (forall k int :: 0 <= k && k < len(all) ==> gvcModToBacked(all[k], to))
+//@   loop 2 invariant (forall k int :: 0 <= k && k < len(all) ==> gvcColKind(all[k]))
+//@   loop 3 invariant (forall k int :: 0 <= k && k < len(all) ==> gvcDropBacked(all[k], from, to))
+//@   loop 3 invariant (forall k int :: 0 <= k && k < len(all) ==> gvcAddBacked(all[k], from, to))
+//@   loop 3 invariant (forall k int :: 0 <= k && k < len(all) ==> gvcModBacked(all[k], from, to))
+//@   loop 3 invariant (forall k int :: 0 <= k && k < len(all) ==> gvcModToBacked(all[k], to))
+//@   loop 3 invariant (forall k int :: 0 <= k && k < len(all) ==> gvcColKind(all[k]))
+//@   loop 3 invariant the-result-is-the-list-so-far: len(changes) == loopk && (forall q int :: 0 <= q && q < loopk ==> changes[q] == all[q])
+//@   loop 1 invariant len(all) <= loopk
+//@   loop 2 invariant len(all) <= len(from.Columns)+loopk
+//@   loop 3 invariant len(all) <= len(from.Columns)+len(to.Columns)
